@@ -1,7 +1,7 @@
 INIT Init
 NEXT Next
 CONSTANTS
-  Tier = "q"
+  Tier = "inc"
   Seed = 1
   Impl = "asis"
 INVARIANTS IncFormsAgree
